@@ -1823,7 +1823,10 @@ class Scheduler:
         # Record the job as pending, since we're submitting it.
         # Note that if the CSE is disabled, this job might have the same `eval_hash` as a prior
         # one. We don't care about overwriting, however, since they're all equivalent.
-        self._pending_jobs[(job.eval_hash, job.context_hash)] = job
+        # Jobs that do not record provenance have no CallNode, so other jobs must not be
+        # collapsed into them.
+        if job.recording_provenance():
+            self._pending_jobs[(job.eval_hash, job.context_hash)] = job
 
         # Submit job.
         if not job.task.script:
@@ -2005,7 +2008,8 @@ class Scheduler:
 
         # Once a job has been recorded to the cache, we don't need to keep around
         # the job, since if we see it again, we'll simply download the result.
-        self._pending_jobs.pop((job.eval_hash, job.context_hash), None)
+        if self._pending_jobs.get((job.eval_hash, job.context_hash)) is job:
+            self._pending_jobs.pop((job.eval_hash, job.context_hash), None)
 
     def _record_job_tags(self, job: Job) -> None:
         """
